@@ -69,10 +69,10 @@ _NOT_COVERED_BLOCKS = ['all floating-point blocks (FIR/FFT/Hilbert/IIR/demod/sym
                        'ToText', 'FftStream', 'CorrelateAccessCode*', 'BurstTagger', 'Tee/Add/AddConst/MultiplyConst/convert (macro-generated loops)',
                        'Delay::set_delay', 'every derive-generated sync work()']
 
-_BU = ['skip', 'delay', 'vsrc', 'v2s', 'consts']
+_BU = ['skip', 'delay', 'vsrc', 'v2s', 'consts', 'resampler']
 _FIR = ['fir']
 P['C08'] = {
-    'units': list(_BU),
+    'units': list(_BU) + _FIR,
     'technique': 'Verus: each covered work() proved to preserve out.produced == F(in.consumed) under a stream-API contract with a universally quantified environment (any window lengths)',
     'level_text': 'Deductive proof for a stated subset of blocks (Skip, Delay with constructor delay, VectorSource, VecToStream, ConstantSource, NullSink): the invariant dst.produced == F(src.consumed) holds after every work() call for every read-window extension and every write-window length, hence for every chunking and every amount of free output space; every panic site (refuse, overflow, slice bounds, callee preconditions) in those bodies is unreachable. All other blocks are NOT decided.',
     'level_note': 'Subset only; see coverage.not_covered. Trusted: stream-API contract (stream_prelude.vx), std shims. A change in an uncovered block is invisible to this check.',
@@ -86,7 +86,7 @@ P['C09'] = {
     'not_covered': _NOT_COVERED_BLOCKS + ['graph.rs / mtgraph.rs handling of the verdicts'], 'assumptions': _BLOCK_ASSUME,
 }
 P['C10'] = {
-    'units': list(_BU) + ['kernels', 'kani:lfsr'],
+    'units': list(_BU) + _FIR + ['kernels', 'kani:lfsr'],
     'technique': 'Verus stream-function invariants (spec function F per block written from its documentation) + Kani full-domain proofs of the LFSR steps',
     'level_text': 'Deductive proof for a stated subset: Skip (drop first k), Delay (d defaults then input), VectorSource (data^repeat), VecToStream (packets concatenated), ConstantSource, NullSink emit exactly F(input) with exact counts; descrambler and IL2P LFSR steps equal their documented recurrences for all register/mask/seed values.',
     'level_note': 'Subset only; float arithmetic blocks, slicer, RTL-SDR decoder, correlators, StreamToPdu, burst tagger, text formatter, FFT framing and the generated per-sample loop are not decided.',
@@ -100,7 +100,7 @@ P['C12'] = {
     'not_covered': _NOT_COVERED_BLOCKS + ['FirFilter / FftFilter / Hilbert tag forwarding'], 'assumptions': _BLOCK_ASSUME,
 }
 P['C15'] = {
-    'units': ['skip', 'delay', 'v2s', 'fir', 'kani:lfsr', 'kani:hdlc', 'kani:codecs'],
+    'units': ['skip', 'delay', 'v2s', 'fir', 'resampler', 'kani:lfsr', 'kani:hdlc', 'kani:codecs'],
     'technique': 'Verus panic-freedom obligations (refuse/overflow/bounds/callee preconditions unreachable for arbitrary sample values) + Kani totality harnesses over all input bytes',
     'level_text': 'Deductive proof for a stated subset: in the covered work() bodies no panic site is reachable for any sample values; bits2byte, calc_crc (lengths 1..2, thorough ..4) and the codecs\' parse never panic for any byte values; the two LFSR steps are checked for every input byte.',
     'level_note': 'Subset only: AuDecode header arithmetic, HdlcDeframer::update_state, wpcr, sigmf, StreamToPdu, symbol sync, zero crossing are not decided.',
